@@ -36,11 +36,27 @@ def mkCat (a b : Re) : Re := match a with
   | empty => empty
   | _ => cat a b
 
-/-- `alt` that drops `empty`. -/
-def mkAlt (a b : Re) : Re := match a, b with
-  | empty, _ => b
-  | _, empty => a
-  | _, _ => alt a b
+/-- The alternatives of an expression, flattened (`empty` contributes none). -/
+def alts : Re → List Re
+  | alt a b => alts a ++ alts b
+  | empty => []
+  | r => [r]
+
+/-- Duplicate-free version of a list of expressions. -/
+def dedupRe : List Re → List Re
+  | [] => []
+  | r :: rs => if r ∈ rs then dedupRe rs else r :: dedupRe rs
+
+def ofAlts : List Re → Re
+  | [] => empty
+  | [r] => r
+  | r :: rs => alt r (ofAlts rs)
+
+/-- `alt` up to associativity, commutativity-free idempotence and `empty`: the alternatives
+    of both sides, flattened, without repetitions.  This keeps the set of derivatives of an
+    expression finite (Brzozowski), so matching never blows up — nested stars over nullable
+    bodies, as in the repository grammar, otherwise double the term at every character. -/
+def mkAlt (a b : Re) : Re := ofAlts (dedupRe (alts a ++ alts b))
 
 def deriv (c : Char) : Re → Re
   | empty => empty
